@@ -212,15 +212,19 @@ func handlePanic(t *T, recovered any) {
 	}
 
 	err, isError := recovered.(error)
+	failNow, errMessage := false, ""
+	if isError {
+		failNow, errMessage = inspectPanicError(err)
+	}
 	switch {
-	case isError && errors.Is(err, errFailNow):
+	case isError && failNow:
 		return
 	case isError:
 		stack := debug.Stack()
 		t.logger.Error("recovered panic in scenario",
 			log.StackTraceAttr(stack),
 			log.IterationAttr(t.Iteration),
-			log.ErrorAttr(err),
+			log.ErrorStringAttr(errMessage),
 		)
 		t.Fail()
 	default:
@@ -232,6 +236,24 @@ func handlePanic(t *T, recovered any) {
 		)
 		t.Fail()
 	}
+}
+
+// inspectPanicError reports whether the recovered error is the FailNow sentinel and returns its message.
+// The error is whatever value the scenario panicked with, so its methods cannot be trusted: a nil pointer
+// stored in an error interface panics in Error(). Such a panic must not escape the recovery in progress.
+func inspectPanicError(err error) (failNow bool, message string) {
+	defer func() {
+		if r := recover(); r != nil {
+			failNow = false
+			message = fmt.Sprintf("%T (its methods panicked: %v)", err, r)
+		}
+	}()
+
+	if errors.Is(err, errFailNow) {
+		return true, ""
+	}
+
+	return false, err.Error()
 }
 
 func (t *T) teardown() {
